@@ -3,6 +3,17 @@ Driver/C16 — runs the executable ZBSDIFF model (builders, control-block codec,
 the whole-patch layer of Model/Zbsdiff: header, zlib framing with zlib given as a table on the
 request line, container split, i64 codec, short-reading old source) on protocol lines.
 Stateful: `begin <old> <new>` sets the pair.
+
+Large cases (harness/src/bin/c16.rs, "large blocks"): a byte-string token of a request may be a
+reference into the state of the current case instead of hex —
+  `@c` `@d` `@e`    the inflated control / diff / extra block of the last `build` / `buildp` line
+                    that returned a patch (the MODEL's own blocks here, the real builder's there),
+  `@p`              the patch bytes returned by the last `buildp` line,
+  `@zc` `@zd` `@ze` the three stored slices of `@p` (container split),
+  `@sa`             (suffix lines) the suffix array given by the last `sa <list>` line —
+and a byte string of at least `digestMin` bytes is answered as `#<length>:<FNV-1a 64>` instead of
+hex (both sides; equal response text = equal length and digest). A reference that has nothing to
+refer to is `bad-op`.
 -/
 import Driver.Common
 import Cascette.Model.Zbsdiff
@@ -13,6 +24,35 @@ open Cascette.Model.Zbsdiff
 structure St where
   old : Bytes := []
   new : Bytes := []
+  /-- inflated control / diff / extra block of the last `build` / `buildp` line that returned a patch -/
+  blk : Option (Bytes × Bytes × Bytes) := none
+  /-- patch bytes answered on the last `buildp` line -/
+  pat : Option Bytes := none
+  /-- suffix array of the last `sa` line -/
+  sa : Option (Array Nat) := none
+
+/-! big byte strings in responses: length + FNV-1a 64 -/
+
+def digestMin : Nat := 16384
+
+def fnv1a (b : Bytes) : UInt64 :=
+  b.foldl (fun h x => (h ^^^ x.toNat.toUInt64) * 1099511628211) 14695981039346656037
+
+def hexD (b : Bytes) : String :=
+  if (b.take digestMin).length < digestMin then hexOf b
+  else "#" ++ toString b.length ++ ":" ++ hexFixed 16 (fnv1a b).toNat
+
+/-- a byte-string token: hex, `-`, or a reference into the state of the case. -/
+def parseB (st : St) (t : String) : Option Bytes :=
+  if t == "@c" then st.blk.map (·.1)
+  else if t == "@d" then st.blk.map (·.2.1)
+  else if t == "@e" then st.blk.map (·.2.2)
+  else if t == "@p" then st.pat
+  else if t == "@zc" ∨ t == "@zd" ∨ t == "@ze" then
+    match st.pat.map splitPatch with
+    | some (.ok (_, c, d, e)) => some (if t == "@zc" then c else if t == "@zd" then d else e)
+    | _ => none
+  else parseHex t
 
 def intText (i : Int) : String := if i < 0 then "-" ++ toString i.natAbs else toString i.toNat
 
@@ -22,11 +62,16 @@ def ctlText (cs : List Spec.Bspatch.Ctl) : String :=
 
 def buildText : Except Err Patch → String
   | .error e => e.text
-  | .ok p => "ctl=" ++ ctlText p.ctl ++ " raw=" ++ hexOf (encodeCtl p.ctl) ++ " diff=" ++ hexOf p.diff ++ " extra=" ++ hexOf p.extra ++ " out=" ++ toString p.outSize
+  | .ok p => "ctl=" ++ ctlText p.ctl ++ " raw=" ++ hexD (encodeCtl p.ctl) ++ " diff=" ++ hexD p.diff ++ " extra=" ++ hexD p.extra ++ " out=" ++ toString p.outSize
 
 def applyText : Except Err Bytes → String
   | .error e => e.text
-  | .ok o => hexOf o
+  | .ok o => hexD o
+
+/-- state after a `build` / `buildp` line: the blocks of the patch it returned (none on an error). -/
+def blocksOf : Except Err Patch → Option (Bytes × Bytes × Bytes)
+  | .error _ => none
+  | .ok p => some (encodeCtl p.ctl, p.diff, p.extra)
 
 def parseSa (s : String) : Option (Array Nat) :=
   if s == "-" then some #[] else
@@ -38,15 +83,15 @@ def parseSa (s : String) : Option (Array Nat) :=
 
 def pErrText : Except PErr Bytes → String
   | .error e => e.text
-  | .ok o => hexOf o
+  | .ok o => hexD o
 
 /-- pairs `<key> <value>`; a value `!` is "inflate fails". -/
-def parsePairs : List String → Option (List (Bytes × Option Bytes))
+def parsePairs (st : St) : List String → Option (List (Bytes × Option Bytes))
   | [] => some []
   | [_] => none
   | k :: v :: rest =>
-    match parseHex k, parsePairs rest with
-    | some k, some r => if v == "!" then some ((k, none) :: r) else (parseHex v).map fun v => (k, some v) :: r
+    match parseB st k, parsePairs st rest with
+    | some k, some r => if v == "!" then some ((k, none) :: r) else (parseB st v).map fun v => (k, some v) :: r
     | _, _ => none
 
 def tableHas (t : List (Bytes × Option Bytes)) (k : Bytes) : Bool := t.any (·.1 == k)
@@ -59,13 +104,21 @@ def zOfCompress (t : List (Bytes × Option Bytes)) : Zlib :=
 def zOfDecompress (t : List (Bytes × Option Bytes)) : Zlib :=
   ⟨fun b => b, fun b => (t.lookup b).bind id⟩
 
-def buildP (t : List (Bytes × Option Bytes)) (r : Except Err Patch) : String :=
+def buildP (st : St) (t : List (Bytes × Option Bytes)) (r : Except Err Patch) : St × String :=
   match r with
-  | .error e => e.text
+  | .error e => ({ st with blk := none, pat := none }, e.text)
   | .ok p =>
     if tableHas t (encodeCtl p.ctl) && tableHas t p.diff && tableHas t p.extra then
-      pErrText (buildBytes (zOfCompress t) (.ok p))
-    else PErr.zmiss.text
+      let b := buildBytes (zOfCompress t) (.ok p)
+      ({ st with blk := blocksOf r, pat := b.toOption }, pErrText b)
+    else ({ st with blk := blocksOf r, pat := none }, PErr.zmiss.text)
+
+/-- a `build` line: answer and remember the blocks. -/
+def buildB (st : St) (r : Except Err Patch) : St × String :=
+  ({ st with blk := blocksOf r, pat := none }, buildText r)
+
+def saTok (st : St) (t : String) : Option (Array Nat) :=
+  if t == "@sa" then st.sa else parseSa t
 
 def applyP (t : List (Bytes × Option Bytes)) (buf : Option Nat) (old p : Bytes) : String :=
   let z := zOfDecompress t
@@ -89,75 +142,87 @@ def handle (st : St) : List String → St × String
     match parseHex o, parseHex n with
     | some o, some n => ({ old := o, new := n }, "ok")
     | _, _ => (st, "bad-op")
-  | ["build", "simple"] => (st, buildText (simple st.new))
+  | ["sa", sa] =>
+    match parseSa sa with
+    | some sa => ({ st with sa := some sa }, "ok")
+    | none => (st, "bad-op")
+  | ["build", "simple"] => buildB st (simple st.new)
   | ["build", "chunked", blk] =>
     match blk.toNat? with
-    | some b => (st, buildText (chunked b st.old st.new))
+    | some b => buildB st (chunked b st.old st.new)
     | none => (st, "bad-op")
   | ["build", "suffix", sa] =>
-    match parseSa sa with
-    | some sa => (st, buildText (suffix sa st.old st.new))
+    match saTok st sa with
+    | some sa => buildB st (suffix sa st.old st.new)
     | none => (st, "bad-op")
+  | ["build", "suffixb", blk, sa] =>
+    match blk.toNat?, saTok st sa with
+    | some b, some sa => buildB st (suffixBlk b sa st.old st.new)
+    | _, _ => (st, "bad-op")
   | ["apply", "mem", c, d, e, out] =>
-    match parseHex c, parseHex d, parseHex e, out.toNat? with
+    match parseB st c, parseB st d, parseB st e, out.toNat? with
     | some c, some d, some e, some out => (st, applyText (applyBytes none st.old c d e out))
     | _, _, _, _ => (st, "bad-op")
   | ["apply", "stream", buf, c, d, e, out] =>
-    match buf.toNat?, parseHex c, parseHex d, parseHex e, out.toNat? with
+    match buf.toNat?, parseB st c, parseB st d, parseB st e, out.toNat? with
     | some b, some c, some d, some e, some out => (st, applyText (applyBytes (some b) st.old c d e out))
     | _, _, _, _, _ => (st, "bad-op")
   | ["apply", "streamc", caller, buf, c, d, e, out] =>
-    match caller.toNat?, buf.toNat?, parseHex c, parseHex d, parseHex e, out.toNat? with
+    match caller.toNat?, buf.toNat?, parseB st c, parseB st d, parseB st e, out.toNat? with
     | some k, some b, some c, some d, some e, some out => (st, applyText (applyBytesStreamCaller k b st.old c d e out))
     | _, _, _, _, _, _ => (st, "bad-op")
   | ["apply", "streamd", c, d, e, out] =>
-    match parseHex c, parseHex d, parseHex e, out.toNat? with
+    match parseB st c, parseB st d, parseB st e, out.toNat? with
     | some c, some d, some e, some out => (st, applyText (applyBytes (some defaultBuf) st.old c d e out))
     | _, _, _, _ => (st, "bad-op")
   | ["apply", "sread", ks, buf, c, d, e, out] =>
-    match parseNats ks, buf.toNat?, parseHex c, parseHex d, parseHex e, out.toNat? with
+    match parseNats ks, buf.toNat?, parseB st c, parseB st d, parseB st e, out.toNat? with
     | some ks, some b, some c, some d, some e, some out =>
       (st, pErrText (applyBytesSrc ⟨st.old, schedOf ks, true⟩ b c d e out))
     | _, _, _, _, _, _ => (st, "bad-op")
   | ["apply", "noseek", buf, c, d, e, out] =>
-    match buf.toNat?, parseHex c, parseHex d, parseHex e, out.toNat? with
+    match buf.toNat?, parseB st c, parseB st d, parseB st e, out.toNat? with
     | some b, some c, some d, some e, some out =>
       (st, pErrText (applyBytesSrc ⟨st.old, fun _ => 1, false⟩ b c d e out))
     | _, _, _, _, _ => (st, "bad-op")
   | "buildp" :: "simple" :: rest =>
-    match parsePairs rest with
-    | some t => (st, buildP t (simple st.new))
+    match parsePairs st rest with
+    | some t => buildP st t (simple st.new)
     | none => (st, "bad-op")
   | "buildp" :: "chunked" :: blk :: rest =>
-    match blk.toNat?, parsePairs rest with
-    | some b, some t => (st, buildP t (chunked b st.old st.new))
+    match blk.toNat?, parsePairs st rest with
+    | some b, some t => buildP st t (chunked b st.old st.new)
     | _, _ => (st, "bad-op")
   | "buildp" :: "suffix" :: sa :: rest =>
-    match parseSa sa, parsePairs rest with
-    | some sa, some t => (st, buildP t (suffix sa st.old st.new))
+    match saTok st sa, parsePairs st rest with
+    | some sa, some t => buildP st t (suffix sa st.old st.new)
     | _, _ => (st, "bad-op")
+  | "buildp" :: "suffixb" :: blk :: sa :: rest =>
+    match blk.toNat?, saTok st sa, parsePairs st rest with
+    | some b, some sa, some t => buildP st t (suffixBlk b sa st.old st.new)
+    | _, _, _ => (st, "bad-op")
   | "applyp" :: "mem" :: p :: rest =>
-    match parseHex p, parsePairs rest with
+    match parseB st p, parsePairs st rest with
     | some p, some t => (st, applyP t none st.old p)
     | _, _ => (st, "bad-op")
   | "applyp" :: "stream" :: buf :: p :: rest =>
-    match buf.toNat?, parseHex p, parsePairs rest with
+    match buf.toNat?, parseB st p, parsePairs st rest with
     | some b, some p, some t => (st, applyP t (some b) st.old p)
     | _, _, _ => (st, "bad-op")
   | ["hdr", p] =>
-    match parseHex p with
+    match parseB st p with
     | some p =>
       (st, match parseFromPatch p with
         | .ok h => "ok " ++ intText h.ctl ++ " " ++ intText h.diff ++ " " ++ intText h.out
         | .error e => e.text)
     | none => (st, "bad-op")
   | ["container", p] =>
-    match parseHex p with
+    match parseB st p with
     | some p =>
       (st, match splitPatch p with
         | .ok (h, c, d, e) =>
-          "ok " ++ intText h.ctl ++ " " ++ intText h.diff ++ " " ++ intText h.out ++ " c=" ++ hexOf c ++ " d=" ++ hexOf d ++
-            " e=" ++ hexOf e ++ (if containerBuild h c d e == p then " rebuilt=same" else " rebuilt=differs")
+          "ok " ++ intText h.ctl ++ " " ++ intText h.diff ++ " " ++ intText h.out ++ " c=" ++ hexD c ++ " d=" ++ hexD d ++
+            " e=" ++ hexD e ++ (if containerBuild h c d e == p then " rebuilt=same" else " rebuilt=differs")
         | .error e => e.text)
     | none => (st, "bad-op")
   | ["codec", "enc", v] =>
